@@ -41,7 +41,7 @@ def main(tier, seed):
         ids = rng.sample(range(1, 256, 2), n)
         props = [(i, rng.choice(ABS), rng.choice(ts_lists)) for i in ids]
         cases.append((served, ts, rng.choice([0, 16384, 65536]), props, rng.choice([0, 16384, 131072])))
-    obs = [nd.observe_accept(*c) for c in cases]
+    obs = [nd.observe_accept(*c, variant=(k % 7 if k % 3 == 0 else 0)) for k, c in enumerate(cases)]
     run = common.CoqRun('C09')
     failing, broken, n_obl, n_ok = common.run_sharded(run, 'Acc', nd.IMPORTS, 'acase', [t for t, _h in obs],
                                                       [('corr', 'accept_corr'), ('spec', 'accept_spec')], size=60)
@@ -73,7 +73,8 @@ def main(tier, seed):
 
 
 def replay(rec):
-    _t, h = nd.observe_accept(rec['served'], rec['ts'], rec['own_max'], [tuple(p) for p in rec['proposals']], rec['peer_max'])
+    _t, h = nd.observe_accept(rec['served'], rec['ts'], rec['own_max'], [tuple(p) for p in rec['proposals']], rec['peer_max'],
+                              rec.get('variant', 0))
     for k, v in h.items():
         print(k, ':', v)
     return 0
